@@ -150,7 +150,7 @@ def run(ctx):
     for name in MODELS:
         _model_file(name)
     bound = ctx.q(1, 2)
-    cap = ctx.q(6000, 200000)
+    cap = ctx.q(6000, 12000)
     jobs = []
     nsh = ctx.q(4, 16)
     calls = ["forward", "step", "inverse"] + (["step2"] if ctx.thorough else [])
